@@ -139,6 +139,11 @@ add("C09", "E3-history-bfs", "fault_enumeration",
     "Bound: every 30th r0-signature class without conditions in quick (every 3rd in thorough), <=2 tuples, Check on every node + two ListObjects as q1 and q2, default and weighted-graph/pipeline engines, fresh server per world. Trusted: fault-injecting datastore wrapper (h/dsx), map-backed cache (h/cachex). Interleavings of drain vs concurrent reader: C23's scheduler harness.",
     "exhaustive fault-point enumeration (cancel / error at every datastore operation of the first request) on the real server, differential + reference oracle on the following requests")
 
+add("C20", "E2-worlds", "exploration",
+    "In single-threaded worker processes every request of {Check, BatchCheck, ListObjects, StreamedListObjects, ListUsers, Expand} runs on three engine configurations over every world (family representatives, hand-made 12-cycles of usersets, an 8-cycle of TTU parents, a 150-way fan-out), undisturbed and with its context cancelled at the k-th datastore operation for EVERY k: the call must return (20 s watchdog) and the process's goroutine count must be back at its pre-request value within 3 s (nothing started for the request keeps running; caches off, so no background fill is excepted).",
+    "Bound: every 16th r0-signature class without conditions in quick (every 2nd in thorough), single-tuple sets and every 7th two-tuple set, cancellation points capped at 40 per request. Wall-clock 'deadline plus slack' is NOT decided. One Go-scheduler interleaving per run; schedule-quantified termination is covered by the cancel-thread scenarios of the C21/C22 scheduler harnesses.",
+    "bounded exhaustive enumeration of inputs x cancellation points on the implementation with a goroutine-census oracle")
+
 NOT_BUILT ="check not built yet in this session; see DESIGN.md §5 for the planned decision procedure"
 NA = {}
 
